@@ -69,20 +69,21 @@ type PathResult struct {
 
 // HarnessConfig carries per-harness bounds.
 type HarnessConfig struct {
-	MaxDecisions int
-	MaxSteps     int64
-	MaxPaths     int
-	ConcretizeK  int
-	SolverMs     int
-	Workers      int
-	Tier         int
-	Seed         int64
-	Known        map[string]bool // listed known-finding ids
-	SampleEvery  int             // take a witness tape for every n-th completed path
-	FloatMode    string          // "fp" or "real"
-	StopAtFirst  bool
-	MaxAlloc     int64 // allocation obligation bound (elements); 0 = off
-	AllocCut     bool  // continue past a symbolic-size allocation with one representative size
+	MaxDecisions        int
+	MaxSteps            int64
+	MaxPaths            int
+	ConcretizeK         int
+	SolverMs            int
+	Workers             int
+	Tier                int
+	Seed                int64
+	Known               map[string]bool // listed known-finding ids
+	SampleEvery         int             // take a witness tape for every n-th completed path
+	FloatMode           string          // "fp" or "real"
+	StopAtFirst         bool
+	StopAfterViolations int   // per worker; 0 = explore everything
+	MaxAlloc            int64 // allocation obligation bound (elements); 0 = off
+	AllocCut            bool  // continue past a symbolic-size allocation with one representative size
 }
 
 // HarnessReport aggregates exploration of one harness function.
